@@ -82,8 +82,8 @@ def floors(tier):
     classes = {f"op:{o}": 10 for o in ALL_OPS}
     classes.update({
         "module:generated": 150 if q else 1500, "module:stdlib": 25 if q else 60, "module:directed": 1,
-        "enum:first-order": 150, "enum:reorder": 100, "enum:cap0": 20, "enum:cap1": 20, "enum:cap5": 20, "enum:cap50": 20,
-        "enum:caprandom": 20, "enum:controller": 50, "enum:count": 300, "enum:operator-subset": 20,
+        "enum:first-order": 150, "enum:reorder": 80, "enum:cap0": 20, "enum:cap1": 20, "enum:cap5": 20, "enum:cap50": 20,
+        "enum:caprandom": 20, "enum:controller": 40, "enum:count": 250, "enum:operator-subset": 20,
         "mode:first-order": 10000, "mode:reorder": 5000, "mode:sampled": 1000, "mode:controller": 2000,
         **{f"enum:hom:{h}": 40 for h in HOM}, **{f"mode:hom:{h}": 1000 for h in HOM},
         "hom:order1": 10, "hom:order2": 40, "hom:order3": 10, "abandoned": 100,
@@ -96,17 +96,17 @@ def plan(tier, seed):
     chunks = [{"name": "directed", "seed": seed}]
     mods = STDLIB_QUICK if q else list(dict.fromkeys(STDLIB_THOROUGH))
     small = [m for m in mods if m not in _BIG]
-    per = 3 if q else 2
-    for i in range(0, len(small), per):
-        chunks.append({"name": "stdlib", "modules": small[i:i + per], "seed": seed})
+    for m in small:
+        chunks.append({"name": "stdlib", "modules": [m], "seed": seed})
     for m in mods:
         if m in _BIG:
             chunks.append({"name": "stdlib", "modules": [m], "seed": seed, "light": True})
-    nchunks, per = (16, 10) if q else (96, 16)
+    chunks.append({"name": "directed-generated", "seed": seed})
+    nchunks, per = (20, 8) if q else (100, 16)
     for part in range(nchunks):
         chunks.append({"name": "generated", "seed": seed, "part": part, "n": per})
     # directed first, then the long single-module chunks
-    chunks.sort(key=lambda c: 0 if c["name"] == "directed" else 1 if c.get("light") else 2)
+    chunks.sort(key=lambda c: 0 if c["name"].startswith("directed") else 1 if c.get("light") else 2)
     return chunks
 
 
@@ -431,7 +431,8 @@ def _enumerate(ctx, st, label, modeclass, gen_factory, case, via_controller=Fals
                     key = f"differs-outside-mutated-node:{mc}:{ops}"
                 ctx.witness(key, f"{subj.name} [{label}]: mutant of {ops} (mutated at {[_pathstr(p) for p in mm]}) differs from the original at "
                                  f"{[_pathstr(d) for d in outside[:4]]}", {**case, "mutated_at": [_pathstr(p) for p in mm]})
-                keys.append((_h(md), ops))
+                gen.close()
+                return None  # the shared tree is not trustworthy any more: one witness per enumeration, no cascade
             else:
                 k = _h(md) if exact else st.graft_key(root, mm)
                 if (md is not None and md == st.orig) or (md is None and k == st.null_key(mm)):
@@ -505,7 +506,11 @@ def _check_subject(ctx, subj, rng, modes):
         ctx.sample({"subject": subj.name, "nodes": box["st"].nodes, "first_order_mutants": total,
                     "by_operator": dict(collections.Counter(o for _, o in full).most_common(6))})
 
+    count_p = modes.get("count_p", 1.0)
+
     def check_count(mutator, what):
+        if what != "first-order" and rng.random() >= count_p:
+            return
         st = box["st"]
         try:
             got = ct.MutationController(mutator, st.tree, subj.mod).mutant_count()
@@ -535,6 +540,7 @@ def _check_subject(ctx, subj, rng, modes):
         got = collections.Counter(h for h, _ in res)
         extra = got - full_ms
         ctx.ok(cls=f"inclusion:{modeclass}")
+        bad = next((o for h, o in res if h in extra), "?")
         if extra and not exact:
             # graft keys are finer than dumps (same dump can arise from different positions): decide by full dumps
             ctx.count("inclusion_decided_by_full_dumps")
@@ -543,7 +549,6 @@ def _check_subject(ctx, subj, rng, modes):
             except Exception:  # noqa: BLE001 - the enumeration itself was already reported above if it fails
                 pass
         if extra:
-            bad = next((o for h, o in res if h in extra), "?")
             ctx.witness(f"mutant-not-in-full-enumeration:{modeclass}:{bad}",
                         f"{subj.name} [{label}]: {sum(extra.values())} of {len(res)} yielded mutants are not (or more often than) in the full enumeration", case)
         if cap is not None and len(res) != min(cap, total):
@@ -675,11 +680,12 @@ def _all_modes(rng, light=False, controller=False):
 
 def _some_modes(rng):
     return {
-        "caps": rng.sample([0, 1, 5, 50, "random"], 2),
-        "hom": [(h, rng.choice([2, 2, 2, 1, 3])) for h in rng.sample(HOM, 2)],
+        "caps": rng.sample([0, 1, 5, 50, "random"], rng.randint(1, 2)),
+        "hom": [(h, rng.choice([2, 2, 2, 1, 3])) for h in rng.sample(HOM, rng.choice([1, 1, 2]))],
         "abandoned": [rng.choice(["first-order", "sampled", "hom"])],
-        "controller": rng.random() < 0.5,
-        "reorder": rng.random() < 0.8,
+        "controller": rng.random() < 0.35,
+        "reorder": rng.random() < 0.6,
+        "count_p": 0.25,
     }
 
 
@@ -713,6 +719,7 @@ def _apply_break():
             node.value = not node.value
             return node
 
+        _bool.__name__ = "mutate_Constant_bool"
         misc.BooleanLiteralReplacement.mutate_Constant_bool = _bool
     elif name == "hom-finish-skips-first":
         def _finish(generators):
@@ -720,16 +727,15 @@ def _apply_break():
                 next(generator, None)
 
         mu.HighOrderMutator._finish_generators = staticmethod(_finish)
-    elif name == "sample-ignores-visitor":  # regenerating a selected mutation picks the first visitor of the node
-        orig_visit = base.MutationOperator.visit
+    elif name == "regenerated-differs":  # regenerating a selected mutation (sampled / reordered path) builds a different mutant
+        def _num(self, node):
+            value = node.value
+            if not isinstance(value, int | float) or isinstance(value, bool):
+                return None
+            return ast.Constant(value + (1 if self.only_mutation is None else 2))
 
-        def visit(self, node):
-            om = self.only_mutation
-            if om is not None and om.node == node:
-                object.__setattr__(om, "visitor_name", self._find_visitors(node)[0].__name__)
-            yield from orig_visit(self, node)
-
-        base.MutationOperator.visit = visit
+        _num.__name__ = "mutate_Constant_num"
+        misc.ConstantReplacement.mutate_Constant_num = _num
     elif name == "extra-change-elsewhere":  # return replacement also flips an unrelated sibling statement
         import pynguin.assertion.mutation_analysis.operators.statement as stm
 
@@ -742,6 +748,7 @@ def _apply_break():
                 body[0].value = ast.Constant(value=None)
             return out
 
+        mutate_return.__name__ = "mutate_Return"
         stm.ReturnValueReplacement.mutate_Return = mutate_return
     else:
         raise RuntimeError(f"unknown VERIF_BREAK {name}")
@@ -776,14 +783,18 @@ def _run_chunk(spec, ctx):
         import pynguin.assertion.mutation_analysis.operators as mo
 
         subsets = [[o.__name__ for o in mo.standard_operators], [o.__name__ for o in mo.experimental_operators]]
-        for _ in range(6):
+        for _ in range(3):
             subsets.append(sorted(rng.sample(ALL_OPS, rng.randint(3, 12)), key=ALL_OPS.index))
         for names in subsets:
             _check_subject(ctx, subj, rng, {**_some_modes(rng), "ops": names, "controller": True})
+        return
+
+    if spec["name"] == "directed-generated":
         # deterministic small generated modules so that the per-mode floors hold for every seed
+        rng = random.Random(2829)
         g = random.Random(99)
-        for i in range(4):
-            src = minisrc.gen_module(g)
+        for i in range(3):
+            src = minisrc.gen_module(g, nfuncs=2, compact=True)
             m = _import_source(ctx, f"c28_dirgen_{i}", src)
             s = Subject("generated", f"dirgen{i}", src, m)
             _check_subject(ctx, s, rng, _all_modes(rng, controller=True))
@@ -796,6 +807,8 @@ def _run_chunk(spec, ctx):
             if subj is None:
                 continue
             modes = _all_modes(rng, light=spec.get("light", False))
+            if not spec.get("light") and len(subj.src) > 7000:
+                modes = {**_some_modes(rng), "controller": False}
             if not spec.get("light") and rng.random() < 0.25:
                 modes["ops"] = sorted(rng.sample(ALL_OPS, rng.randint(4, 16)), key=ALL_OPS.index)
             _check_subject(ctx, subj, rng, modes)
@@ -803,7 +816,7 @@ def _run_chunk(spec, ctx):
 
     rng = random.Random((spec["seed"] * 1000003 + spec["part"]) * 31 + 28)
     for i in range(spec["n"]):
-        src = minisrc.gen_module(rng, nfuncs=rng.randint(1, 4))
+        src = minisrc.gen_module(rng, nfuncs=rng.randint(1, 3), compact=rng.random() < 0.75)
         name = f"c28_gen_{spec['part']}_{i}"
         mod = _import_source(ctx, name, src)
         subj = Subject("generated", name, src, mod)
